@@ -20,6 +20,9 @@ package lib
 //	            ONE gob.Decoder into the receivers r (a slot number, or f = a fresh Dawg that is
 //	            then held and validated like a slot)
 //	s<o>        observe slot[o] (Search, Lookup, counts)
+//	k<o>        keep a copy BY VALUE of the Dawg in slot[o] (cp := *slot[o], as `all = append(all, d)`
+//	            does with a `var d dawg.Dawg` that is decoded into again and again); the copy must
+//	            behave as the source it held at that moment whatever is decoded into the slot later
 //	c           validate everything now
 //
 // Validation: every held encoding still decodes (into a fresh Dawg) to the automaton of the
@@ -107,6 +110,8 @@ func execHistory(c tcase) hx.Result {
 	var extras []extraObj
 	canon := make([][]byte, n)
 	usedReceiver, multiHeld := false, false
+	valueCopies := 0
+	_ = valueCopies
 	step := 0
 
 	slotOK := func(o int) bool { return o >= 0 && o < len(slots) }
@@ -302,6 +307,12 @@ func execHistory(c tcase) hx.Result {
 		case 's':
 			if o, err := strconv.Atoi(arg); err == nil && slotOK(o) {
 				checkSlot(o, op)
+			}
+		case 'k':
+			if o, err := strconv.Atoi(arg); err == nil && slotOK(o) && content[o] >= 0 {
+				cp := *slots[o]
+				extras = append(extras, extraObj{&cp, content[o]})
+				valueCopies++
 			}
 		case 'c':
 			checkAll(op, false)
@@ -506,7 +517,26 @@ func sourceFamily(r *hx.Rng) [][][]byte {
 func historyProgram(r *hx.Rng, n int) []string {
 	it := strconv.Itoa
 	var p []string
-	switch r.Intn(8) {
+	switch r.Intn(10) {
+	case 8, 9: // one variable decoded into again and again, the values kept by copy (a loop reading a file of automata)
+		for i := 0; i < n; i++ {
+			p = append(p, "e"+it(i))
+		}
+		v := n + r.Intn(2)
+		order := r.Perm(n)
+		if r.Bool() { // widest root last / first: both orders of the root's link counts
+			for i, j := 0, len(order)-1; i < j; i, j = i+1, j-1 {
+				order[i], order[j] = order[j], order[i]
+			}
+		}
+		for _, i := range order {
+			p = append(p, "d"+it(v)+":"+it(i), "k"+it(v))
+		}
+		// and the same automaton twice in a row, then a kept source slot that is overwritten
+		p = append(p, "d"+it(v)+":"+it(order[0]), "k"+it(v), "d"+it(v)+":"+it(order[0]))
+		if n >= 2 {
+			p = append(p, "k0", "d0:1", "k0", "d0:0")
+		}
 	case 0: // hold the encodings of all sources at the same time
 		for i := 0; i < n; i++ {
 			p = append(p, "e"+it(i))
